@@ -140,3 +140,58 @@ func (d *Driver) S2(ctx *common.Ctx, specs []LenSpec, two bool, twoMax int, step
 	}
 	return
 }
+
+// Fillers evaluates, at every listed length, `per` fixed xorshift fillers plus biased and sparse
+// variants of them: inputs with moderate P-values, on which a small miscount still moves the result
+// by more than the tolerance (periodic patterns alone give P-values that are all but 0).
+func (d *Driver) Fillers(ctx *common.Ctx, lens []int, per int, seed uint64) (evals int64, complete bool) {
+	complete = true
+	type item struct {
+		n, k, variant int
+	}
+	var items []item
+	for _, n := range lens {
+		for k := 0; k < per; k++ {
+			for v := 0; v < 3; v++ {
+				items = append(items, item{n, k, v})
+			}
+		}
+	}
+	common.ParFor(len(items), func(i int) {
+		if ctx.Expired() {
+			complete = false
+			return
+		}
+		it := items[i]
+		s := seed + uint64(it.n)*131 + uint64(it.k)
+		bits := enum.Filler(it.n, s)
+		switch it.variant {
+		case 1:
+			for j := 0; j < it.n; j += 11 {
+				bits[j] = true
+			}
+		case 2:
+			for j := 3; j+1 < it.n; j += 17 {
+				bits[j] = bits[j+1]
+			}
+		}
+		k := d.One(bits, func() interface{} {
+			return map[string]interface{}{"n": it.n, "filler_seed": s, "variant": []string{"plain", "every 11th bit set", "every 17th bit copied from its successor"}[it.variant]}
+		})
+		atomic.AddInt64(&evals, int64(k))
+	})
+	return
+}
+
+// WordLengths are lengths around machine-word and power-of-two boundaries (bit-packing optimisations
+// go wrong exactly there): every n in 33..200 and the neighbours of 256, 512, 1024, 2048, 4096.
+func WordLengths(plus ...int) []int {
+	var out []int
+	for n := 33; n <= 200; n++ {
+		out = append(out, n)
+	}
+	for _, p := range []int{256, 512, 1024, 2048, 4096} {
+		out = append(out, p-1, p, p+1, p+31, p+32, p+33, p+63, p+64, p+65)
+	}
+	return append(out, plus...)
+}
